@@ -659,14 +659,7 @@ def main():
     if tier == "quick":
         units = [u for u in units if u.get("tier", "quick") == "quick"]
 
-    # obligations named as cross-checks of a selected unit are run with it
-    have = set(u["id"] for u in units)
-    for u in list(units):
-        for ids in (u.get("cross") or {}).values():
-            for cid in ids:
-                if cid not in have:
-                    units += [x for x in reg.get("unit", []) if x["id"] == cid]
-                    have.add(cid)
+    # obligations named as cross-checks of a selected unit are run lazily: only if that unit's proof fails (see below)
     if args.skip_kani:
         units = [u for u in units if not u["kind"].startswith("kani")]
     pmeta = reg.get("property", {}).get(prop, {})
@@ -736,6 +729,21 @@ def main():
                 results.append(f.result())
             for f in kani_futs:
                 results += f.result()
+            # lazy cross-checks: a Verus unit failed in functions that have complete Kani counterparts -> run those now
+            have = set(r["id"] for r in results)
+            need = []
+            for r in results:
+                u = [x for x in units if x["id"] == r["id"]]
+                if r.get("kind") == "verus" and r.get("status") == "logical" and u and u[0].get("cross"):
+                    for f in r.get("failures", []):
+                        for cid in u[0]["cross"].get(f.get("function"), []):
+                            if cid not in have and cid not in [n["id"] for n in need]:
+                                need += [x for x in reg.get("unit", []) if x["id"] == cid]
+            if need and not args.skip_kani:
+                if scratch is None:
+                    scratch = kani_scratch(repo)
+                units += need
+                results += run_kani_batch(need, scratch, False, args.jobs // 2)
             # counterexample replay for kani failures
             for r in results:
                 if r.get("kind") == "kani" and r.get("status") == "logical" and not r.get("concrete_test") \
@@ -923,6 +931,13 @@ def finish(prop, tier, seed, units, results, ledger, findings, fixed, pmeta, arg
                      "reason": r.get("reason"), "label": "bounded -- NOT counted as proved"}
                     for r in results if r.get("bounded")]
     assumptions = list(pmeta.get("assumptions", []))
+    try:
+        with open(os.path.join(CONTRACTS, "properties_meta.toml"), "rb") as f:
+            pm = tomllib.load(f).get("claim", {}).get(prop, {})
+        if pm.get("note"):
+            assumptions.append("scope of the claim: " + pm["note"])
+    except Exception:
+        pass
     for u in units:
         for a in u.get("assumes", []):
             s = "%s assumes: %s" % (u["id"], a)
